@@ -32,7 +32,7 @@ ASSUMPTIONS = [
     'every evaluation builds fresh step objects and fresh scratch directories (checkpoints are always first runs)',
 ]
 BUDGET = {'quick': dict(examples=480, shards=8, seconds=80),
-          'thorough': dict(examples=16000, shards=16, seconds=1500)}
+          'thorough': dict(examples=16000, shards=16, seconds=1200)}
 
 BAD_LINKS = ['int', 'none', 'object', 'wrong-param', 'two-params', 'zero-params']
 
@@ -54,8 +54,13 @@ def cases_(draw):
     cj = draw(st.integers(ci + 1, n))
     c = {'pkg': prog['pkg'], 'steps': prog['steps'], 'cuts': cuts, 'nest': [i, j, i2, j2], 'cond': [ci, cj],
          'cond_form': draw(st.sampled_from(['flow', 'factory'])), 'seq': draw(st.booleans())}
-    if draw(st.integers(0, 5)) == 0:
-        c['bad_link'] = {'kind': draw(st.sampled_from(BAD_LINKS)), 'at': draw(st.integers(0, n))}
+    # (Hypothesis' integers / sampled_from / randoms all favour their first / smallest values,
+    # so the (rare) class is selected by a hash of the rest of the case instead of a draw
+    import hashlib
+    from vlib import jsonx
+    h = int.from_bytes(hashlib.blake2b(jsonx.canon([c['steps'], c['pkg']]).encode(), digest_size=8).digest(), 'big')
+    if h % 8 == 0:
+        c['bad_link'] = {'kind': BAD_LINKS[(h >> 8) % len(BAD_LINKS)], 'at': (h >> 16) % (n + 1)}
     return c
 
 
@@ -179,6 +184,29 @@ def check(case, ctx):
     except Exception as e:
         raise unexpected(e, 'conditional-wrapped evaluation')
     compare('conditional', specs, L_before, L_rows, cb, cr)
+    # ---- the same inputs given as plain Python iterables (schema inferred from a 100-row sample, rows chained lazily)
+    if all(len(t) > 0 for t in tables0):
+        try:
+            with quiet():
+                ids = Flow(*[copy.deepcopy(t) for t in tables0]).datastream()
+                i_desc, i_rows, _ = materialise(ids)
+            same_types = [[(f['name'], f['type']) for f in r['schema']['fields']] for r in i_desc['resources']] == \
+                [[(f['name'], f['type']) for f in r['schema']['fields']] for r in desc0['resources']] and \
+                [r['name'] for r in i_desc['resources']] == [r['name'] for r in desc0['resources']]
+            if same_types:
+                env = gp.Env(ctx, 'i')
+                with quiet():
+                    ds = Flow(*[(r for r in copy.deepcopy(t)) for t in tables0], *[gp.build(s_, env) for s_ in specs]).datastream()
+                    ib, ir, _ = materialise(ds)
+                sb, sr, _ = evaluate(specs, jcopy(i_desc), i_rows, ctx)
+                compare('iterable-inputs', specs, ib, ir, sb, sr)
+                classes.append('iterable-inputs')
+        except Violation:
+            raise
+        except Exception as e:
+            why = gp.data_dependent_rejection(e)
+            if not why:
+                raise unexpected(e, 'iterable-input evaluation')
     # ---- observation modes: results() and process() agree with datastream()
     try:
         env = gp.Env(ctx, 'r')
